@@ -9,6 +9,7 @@ import z3
 
 from . import sorts as S
 from . import types as T
+from .engine import mod_covers
 from .engine import SV, Exec, PathEnd, PyRaise, Unsupported, _Break, _Continue, sv_bool, sv_int
 
 
@@ -66,6 +67,32 @@ def iter_abs(ex: Exec, node: ast.expr) -> IterAbs:
         if isinstance(f, ast.Attribute) and f.attr == "chain" and ast.unparse(f.value) in ("it", "itertools"):
             parts = [iter_abs(ex, a) for a in node.args]
             return _chain(ex, parts)
+    if isinstance(node, ast.GeneratorExp) and len(node.generators) == 1 and node.generators[0].ifs:
+        # filtered generator: a sub-sequence of unknown length; each element is the
+        # element expression at some source index that passes the filter
+        gen = node.generators[0]
+        inner = iter_abs(ex, gen.iter)
+        n = ex.fresh("nfilt", S.INT)
+        ex.assume(z3.And(n >= 0, n <= inner.n))
+        src = z3.Function(f"srcidx!{ex.counter}", S.INT, S.INT)
+        ex.counter += 1
+
+        def getf(i, gen=gen, inner=inner, node=node, src=src):
+            saved = dict(ex.locals)
+            try:
+                j = src(i)
+                if not _has_bound(ex):
+                    ex.assume(z3.And(0 <= j, j < inner.n))
+                _bind_target(ex, gen.target, inner.get(j))
+                conds = [_pure(ex, lambda c=c: ex.truth(ex.eval(c))) for c in gen.ifs]
+                if not _has_bound(ex):
+                    for c in conds:
+                        ex.assume(c)
+                return _pure(ex, lambda: ex.eval(node.elt))
+            finally:
+                ex.locals = saved
+
+        return IterAbs(n, getf)
     if isinstance(node, ast.GeneratorExp) and len(node.generators) == 1 and not node.generators[0].ifs:
         gen = node.generators[0]
         inner = iter_abs(ex, gen.iter)
@@ -112,6 +139,11 @@ def iter_of_value(ex: Exec, v: SV) -> IterAbs:
     r = lib.iter_hook(ex, v)
     if r is not None:
         return r
+    if k == "any":
+        n = ex.fresh("nany", S.INT)
+        ex.assume(n >= 0)
+        elems = ex.fresh("anyiter", S.SEQV)
+        return IterAbs(n, lambda i: SV(elems[i], T.ANY))
     raise Unsupported(f"iteration over {v.ty} (line {ex.cur_line})")
 
 
@@ -208,7 +240,7 @@ def assigned_names(stmts: list[ast.stmt]) -> set[str]:
     return out
 
 
-def havoc_for_loop(ex: Exec, names: set[str]) -> None:
+def havoc_for_loop(ex: Exec, names: set[str], heap: bool = True) -> None:
     """Forget everything a loop iteration may have changed: assigned locals and
     every heap location the function is allowed to modify or has allocated."""
     for n in sorted(names):
@@ -217,6 +249,8 @@ def havoc_for_loop(ex: Exec, names: set[str]) -> None:
             t = ex.fresh(f"hv_{n}")
             nv = ex.typed(t, old.ty) if old.ty.kind != "raw" else SV(ex.fresh(f"hv_{n}", old.t.sort()), old.ty, old.aux)
             ex.locals[n] = nv
+    if not heap:
+        return
     evno = len(ex.events)
     modset = list(ex.modset)
     alloc0 = ex.alloc0
@@ -226,7 +260,7 @@ def havoc_for_loop(ex: Exec, names: set[str]) -> None:
         fresh = z3.Const(f"hv{evno}_{name.replace(':', '_')}", S.heap_sort(name))
         conds = [o >= alloc0]
         for mid, mname in modset:
-            if mname == "*" or mname == name:
+            if mod_covers(mname, name):
                 conds.append(o == mid)
         if name == "cls":
             conds = [o >= alloc0]
@@ -237,6 +271,45 @@ def havoc_for_loop(ex: Exec, names: set[str]) -> None:
     na = ex.fresh("alloc", S.INT)
     ex.assume(na >= ex.alloc)
     ex.alloc = na
+
+
+_MUTATING = {"append", "extend", "insert", "pop", "remove", "clear", "update", "setdefault", "add", "discard",
+             "put", "get_nowait", "sort", "reverse", "popitem"}
+
+
+def write_footprint(st: ast.stmt) -> str:
+    """Syntactic over-approximation of what a loop body may write to the heap:
+    'none', 'some' (attributes / containers / calls)."""
+    for n in ast.walk(st):
+        if isinstance(n, (ast.Attribute, ast.Subscript)) and isinstance(n.ctx, (ast.Store, ast.Del)):
+            return "some"
+        if isinstance(n, ast.Call):
+            f = n.func
+            if isinstance(f, ast.Attribute):
+                if f.attr in _MUTATING:
+                    return "some"
+                if f.attr in ("items", "values", "keys", "get", "copy", "issubset", "difference", "union",
+                              "startswith", "endswith", "format", "join", "index", "count", "lower", "upper",
+                              "strip", "split", "replace", "isdigit", "to_dict", "iterrows"):
+                    continue
+                return "some"
+            if isinstance(f, ast.Name) and f.id in ("isinstance", "len", "set", "list", "dict", "tuple", "sorted",
+                                                       "zip", "enumerate", "range", "all", "any", "cast", "float",
+                                                       "int", "str", "bool", "abs", "min", "max", "sum", "reversed"):
+                continue
+            return "some"
+    return "none"
+
+
+def default_loop_spec(ex: Exec, st: ast.stmt, ordinal: int) -> dict:
+    """A loop without a supplied invariant is cut with the invariant `True`.  A
+    read-only body (syntactic footprint 'none') havocs only its assigned locals;
+    otherwise everything the function may modify is forgotten (sound
+    over-approximation; postconditions that depend on the loop then fail to prove
+    and must be given an invariant)."""
+    fp = write_footprint(st)
+    ex.ver.default_invariants.add(f"{ex.fi.qualname} loop#{ordinal} (footprint {fp})")
+    return {"inv": ast.parse("True", mode="eval").body, "footprint": fp}
 
 
 def loop_spec(ex: Exec) -> dict[str, ast.expr] | None:
@@ -271,7 +344,7 @@ def exec_for(ex: Exec, st: ast.For) -> None:
                 continue
         return
     if spec is None:
-        raise Unsupported(f"loop #{my_ordinal} of {ex.fi.qualname} (line {st.lineno}) has no invariant")
+        spec = default_loop_spec(ex, st, my_ordinal)
     names = assigned_names([st])
     label = f"L{my_ordinal}"
     idx_name = "_i"
@@ -296,7 +369,7 @@ def exec_for(ex: Exec, st: ast.For) -> None:
     # 1. establish
     inv_at(z3.IntVal(0), "inv.establish", True)
     which = ex.choose(2, None, label + "c")
-    havoc_for_loop(ex, names)
+    havoc_for_loop(ex, names, heap=spec.get("footprint") != "none")
     if which == 0:
         # 2. arbitrary iteration
         i = ex.fresh("i", S.INT)
@@ -336,7 +409,7 @@ def exec_while(ex: Exec, st: ast.While) -> None:
     if st.orelse:
         raise Unsupported("while/else")
     if spec is None:
-        raise Unsupported(f"while loop #{my_ordinal} of {ex.fi.qualname} (line {st.lineno}) has no invariant")
+        spec = default_loop_spec(ex, st, my_ordinal)
     names = assigned_names([st])
     label = f"L{my_ordinal}"
     entry_locals = dict(ex.locals)
@@ -354,7 +427,7 @@ def exec_while(ex: Exec, st: ast.While) -> None:
 
     inv("inv.establish", True)
     which = ex.choose(2, None, label + "c")
-    havoc_for_loop(ex, names)
+    havoc_for_loop(ex, names, heap=spec.get("footprint") != "none")
     inv("", False)
     is_true = isinstance(st.test, ast.Constant) and st.test.value is True
     if which == 0:
